@@ -105,6 +105,15 @@ func RenderTraces(b *Block) string {
 			ts = append(ts, RenderTrace(b, tx, j, &tx.Traces[j]))
 		}
 	}
+	for i := range b.Rewards {
+		rw := &b.Rewards[i]
+		kind := "block"
+		if i > 0 {
+			kind = "uncle"
+		}
+		ts = append(ts, fmt.Sprintf(`{"action":{"author":%s,"rewardType":%q,"value":%s},"blockHash":%s,"blockNumber":%d,"result":null,"subtraces":0,"traceAddress":[],"transactionHash":null,"transactionPosition":null,"type":"reward"}`,
+			hx(rw.From), kind, qb(rw.Value), hx(b.Hash), b.Num))
+	}
 	return "[" + strings.Join(ts, ",") + "]"
 }
 
